@@ -1,4 +1,5 @@
 """C19 - the studio plays each recording once under its own category's tuning."""
+import collections
 import itertools
 import re
 
@@ -13,13 +14,18 @@ RULE = ("one case = one store (recordings of real decorated operations whose cla
         "categories A, AB, A_B, B on one of the three real cassettes) + one PlaybackStudio.play() request (explicit "
         "id list in any order with duplicates and unknown ids, 1 to 30+ ids, next to lookup properties without a "
         "limit / the studio's default ones (limit 20) / caller-supplied limits smaller than the number of selected "
-        "ids of one category; or lookup mode over a category list) + the set of "
+        "ids of one category; or lookup mode over a category list, in lookup order or as a RANDOM SAMPLE "
+        "(random_sample=True under a seed of `random` named by the case) without a limit / with a limit smaller than, "
+        "equal to and larger than the number of recordings of a category) + the set of "
         "categories whose tuning cannot be created + a consumption script for the lazy result generators; "
         "non-trivial = at least two prefix-related categories are involved; distinct = distinct canonical case")
 EXHAUSTIVE = {"quick": False, "thorough": False}
 ASSUMPTIONS = ["the content of a lookup is C10/C16's business: the model takes what the cassette's "
                "iter_recording_ids answered (spy) as its lookup oracle; the direct predicate checks it against the "
-               "C10 specification (exactly that category, incomplete recordings skipped by default)",
+               "C10 specification (exactly that category, incomplete recordings skipped by default; a random sample "
+               "may be any min(limit, size) distinct recordings of the category in any order - WHICH ones is not "
+               "specified, so two plays of one sampled request are compared by shape only: categories, error or "
+               "not, number of comparisons)",
                "dedicated comparison processes are modelled by C08/C13; here a few requests run on REAL worker "
                "processes and are expected to give what the in-process model gives (C08_modes_agree: no worker exits, "
                "hangs or late answers are scripted); a timing anomaly must show up three times in a row to count",
@@ -196,7 +202,60 @@ def uneven_case(rng, kind, recs, config):
     return dict(case, fail=fail, config=config, script=script, close=close)
 
 
+def gen_sample_store(rng, kind):
+    """a store whose categories have known, uneven sizes (A 5-7, AB 4, A_B 1-2, B 3 complete recordings, a few
+    incomplete ones in between): a limited random sample of a category is smaller than / as large as / larger than it"""
+    recs = []
+    for cat, n in (("A", rng.choice([5, 6, 7])), ("AB", 4), ("A_B", rng.choice([1, 2])), ("B", 3)):
+        recs += [dict(cat=cat, beh=rng.choice(BEHS)) for _ in range(n)]
+    recs += [dict(cat=rng.choice(["A", "AB"]), beh="ok", incomplete=True) for _ in range(2)]
+    rng.shuffle(recs)
+    if kind == "s3":
+        for r in recs:
+            r["day"] = rng.choice([0, 0, 1, 2])
+    return recs
+
+
+def random_sample_cases(rng, kind, tier):
+    """Lookup-driven runs with RecordingLookupProperties.random_sample: no limit / a limit smaller than, equal to and
+    larger than the number of recordings of a category, each under several seeds of `random` (the sample is drawn
+    from the process-wide generator: random.seed selects it).  Whatever is drawn, each drawn recording is replayed once."""
+    out = []
+    for _ in range(1 if tier == "quick" else 4):
+        recs = gen_sample_store(rng, kind)
+        n_a = sum(1 for r in recs if r["cat"] == "A" and not r.get("incomplete"))
+        for limit in (None, 2, 4, n_a - 1, n_a, n_a + 1, 20):
+            for rseed in rng.sample(range(1000), 3 if tier == "quick" else 6):
+                cats = rng.sample(CATS, len(CATS))
+                k = rng.random()
+                if k < 0.3:
+                    cats.insert(rng.randrange(len(cats) + 1), "C")
+                elif k < 0.45:
+                    cats = cats[:rng.choice([1, 2, 3])]
+                out.append(dict(cassette=kind, recs=recs, mode="lookup", ids=rng.choice([None, None, []]),
+                                categories=cats, fail=[] if rng.random() < 0.75 else [rng.choice(cats)],
+                                lp=dict(limit=limit, skip_incomplete=rng.random() < 0.8, random=True), rseed=rseed,
+                                config=rng.choice([None, "default", "keep"]),
+                                script=rng.choice([[0], [1, 0], [rng.randrange(12) for _ in range(rng.randrange(2, 9))]])))
+    return out
+
+
 def generate(rng, tier):
+    cases = generate_main(rng, tier)
+    # ---- random samples.  Drawn after everything else so that the requests above stay what they were.
+    # (a) a share of the lookup requests above asks for a random sample
+    for c in cases:
+        lp = c.get("lp")
+        if c["mode"] == "lookup" and lp and not lp.get("default") and "close" not in c and rng.random() < 0.35:
+            c["lp"] = dict(lp, random=True)
+            c["rseed"] = rng.randrange(1000)
+    # (b) the small region limit x category size x seed, always (also in the quick tier)
+    for kind in ("mem", "file", "s3"):
+        cases += random_sample_cases(rng, kind, tier)
+    return cases
+
+
+def generate_main(rng, tier):
     n_stores, per_store = (3, 45) if tier == "quick" else (20, 120)
     cases = []
     for kind in ("mem", "file", "s3"):
@@ -518,14 +577,17 @@ def check_play(case, obs, o, which):
             n_want = len(spec) if limit is None else min(limit, len(spec))
             if c in close:
                 n_want = min(n_want, close[c])
-            if len(got) != n_want and not extra:
+            if len(set(got)) != n_want and not extra:
                 bad("lookup-missed-recordings", "category %s played %d of its %d recordings (limit %s): %s" %
-                    (c, len(got), len(spec), limit, got))
+                    (c, len(set(got)), len(spec), limit, got))
             if asked.count(c) != 1:
                 bad("lookup-not-by-category", "lookups asked for %s while playing %s" % (asked, cats))
             else:
                 answer = [l for cc, l in o["lookups"] if cc == c][0]
-                if got != answer:
+                # a random sample has no order to keep: what is played is drawn from the category's own lookup
+                drawn = not (collections.Counter(got) - collections.Counter(answer)) if lp.get("random") \
+                    else got == answer
+                if not drawn:
                     bad("lookup-not-by-category", "category %s played %s but its lookup answered %s" % (c, got, answer))
         for c in asked:
             if c not in cats:
@@ -549,7 +611,17 @@ def direct(case, obs):
     if not fails:
         fails = check_play(case, obs, obs["inter"], "interleaved")
 
+    sampled = bool((case.get("lp") or {}).get("random")) and not case.get("ids")
+
+    def shape(r):
+        """of a category's result under random sampling: WHICH recordings are drawn (and in which order) legitimately
+        differs from one play to the next - the draws of the categories share one generator, so the sample of a
+        category depends on which lookups ran before it; error or not and the number of comparisons do not"""
+        return {"error": r["error"]} if "error" in r else {"n": len(r.get("cmps", [])), "closed": r.get("closed")}
+
     def proj(o):
+        if sampled and "results" in o:
+            return {"cats": o["cats"], "results": [shape(r) for r in o["results"]]}
         return {k: v for k, v in o.items() if k in ("raised", "cats", "results")}
     if not fails and proj(obs["seq"]) != proj(obs["inter"]):
         fails.append(("depends-on-consumption-order", "results differ between category-by-category and interleaved "
@@ -560,7 +632,7 @@ def direct(case, obs):
             fails.append(("tuner-failure-not-isolated", "categories with failing tuners %s: %s, without: %s" %
                           (case["fail"], obs["seq"]["cats"], base["cats"])))
         for c, r, rb in zip(base["cats"], obs["seq"]["results"], base["results"]):
-            if c not in case.get("fail", []) and r != rb:
+            if c not in case.get("fail", []) and (shape(r) != shape(rb) if sampled else r != rb):
                 fails.append(("tuner-failure-not-isolated",
                               "category %s differs when the tuners of %s fail" % (c, case["fail"])))
                 break
@@ -607,6 +679,16 @@ def features(case):
             f.add("duplicate-categories")
         lp = case.get("lp") or {}
         f.add("lookup=%s" % ("default" if lp.get("default") else "limit-%s" % lp.get("limit")))
+        if lp.get("random"):
+            f.add("lookup-random-sample")
+            sizes = [sum(1 for r in case["recs"] if r["cat"] == c and not (r.get("incomplete") and
+                                                                         lp.get("skip_incomplete", True)))
+                     for c in set(cats)]
+            lim = lp.get("limit")
+            for n in sizes:
+                if n:
+                    f.add("random-sample:" + ("unlimited" if lim is None else "limit<category" if lim < n else
+                                              "limit=category" if lim == n else "limit>category"))
         if not lp.get("skip_incomplete", True):
             f.add("lookup-keeps-incomplete")
         if case.get("ids") == []:
@@ -670,7 +752,10 @@ MANIFEST = dict(
          'and comparing with the model by vm_compute; direct predicate on the implementation searches for a failing request. '
          'Explicit selections are also played next to lookup properties whose limit (the default 20, or 1-20 supplied '
          'by the caller) is smaller than the number of selected ids of one category: the limit belongs to lookups, every '
-         'selected id is played.',
+         'selected id is played. Lookup-driven runs also ask for a random sample (random_sample=True, seeded `random`) '
+         'with no limit / a limit below, at and above the size of a category, several seeds per combination on every '
+         'cassette: whatever is drawn, the drawn recordings are distinct, of that category, as many as the limit allows, '
+         'and each is replayed exactly once.',
     note='Trusted: Coq kernel + vm_compute; hand-written model; correspondence harness (tagging tuner, lookup spy, fake '
          'bucket/clock). Lookup content is an oracle specified by C10; dedicated comparison processes are C08/C13.',
     technique='Coq proof (induction over id / category lists) + model/implementation correspondence by vm_compute',
